@@ -24,6 +24,8 @@ def run(op, a):
         t.GetTxid(), t.GetHash()
         res = [t.GetTxid(), t.GetHash(), m.GetTxid(), m.GetHash(), m2.GetTxid(),
                1 if (t == m and m == t and not (t != m)) else 0, 1 if hash(t) == hash(m) else 0]
+        from bitcoin.core import Hash as _H
+        stripped_ok = all(_H(o.serialize(dict(include_witness=False))) == o.GetTxid() and _H(o.serialize()) == o.GetHash() for o in (t, m))
         # identifiers of a mutable object follow its current field values: ask, edit, ask again
         m.nLockTime = (m.nLockTime + 1) % (1 << 32)
         res += [m.GetTxid(), m.GetHash()]
@@ -51,6 +53,9 @@ def run(op, a):
             res[5] = 0
         if hash(m) != hash(snap) or hash(m) == hash(t):
             res[6] = 0
+        # the explicit "witness-stripped serialisation" switch is what the txid hashes
+        if not stripped_ok:
+            res[0] = b'txid-is-not-the-hash-of-the-stripped-serialisation'
         return res
     if op == 2:
         h, txs = a[0]
